@@ -8,7 +8,7 @@ COQ_CHECK = "M_SelectBest.check_case2"
 OBLIGATIONS = ["funnel_in_domain", "dsatuto_selects_in_domain", "adsa_selects_in_domain", "gdba_selects_in_domain",
                "dpop_selects_in_domain", "syncbb_selects_in_domain", "mgm_selects_in_domain",
                "mgm2_selects_in_domain", "mgm2_messages_in_domain", "dsa_selects_in_domain",
-               "dba_selects_in_domain_partial", "dba_selects_in_domain_refuted", "dba_selects_in_domain",
+               "dba_selects_in_domain_partial", "dba_selects_in_domain_refuted", "dba_selects_in_domain", "dba_nesting_limit_unreached",
                "adsa_find_best_values_spec", "gdba_compute_best_improvement_spec",
                "adsa2_selects_in_domain", "gdba2_selects_in_domain",
                "maxsum_selects_in_domain", "amaxsum_selects_in_domain", "C10_all"]
@@ -269,6 +269,8 @@ def coq_case(case, o):
                          for n_ in names])
             model = "(ATuto %s %s)" % (run, evs)
         elif algo == "adsa":
+            if any(r[3] is None or r[4] is None for n_ in names for r in m["evs"][n_]):
+                return None                      # the cost inputs could not be recorded: not modelled (counted)
             # record = inputs (cost of every domain value, cost of the current value, violated flag) + what the
             # implementation derived (delta > 0, mask of the list find_best_values returned)
             evs = q.lst([q.pair(q.z(_id(n_)), q.lst(["(%s, %s, %s, %s, %s)" % (
